@@ -35,6 +35,12 @@ func c01Big(c *ctx, kind string, n int, pkg string, le bool, srid int) {
 	case "Polygon":
 		parts = []int{n, 5, n + 1}
 		g = orb.Polygon{orb.Ring(c01Ramp(n, 3)), orb.Ring(c01Ramp(5, 4)), orb.Ring(c01Ramp(n+1, 5))}
+	case "Nested": // a point inside n collections (collections nest to any depth)
+		parts = []int{n}
+		g = orb.Point{1.5, -2.5}
+		for d := 0; d < n; d++ {
+			g = orb.Collection{g}
+		}
 	default:
 		parts = []int{3, n, 4}
 		g = orb.MultiLineString{orb.LineString(c01Ramp(3, 6)), orb.LineString(c01Ramp(n, 7)), orb.LineString(c01Ramp(4, 8))}
@@ -59,6 +65,36 @@ func c01Big(c *ctx, kind string, n int, pkg string, le bool, srid int) {
 		}
 		e["len"] = len(data)
 		eq := func(v orb.Geometry, err error) int { return b2i(err == nil && v != nil && orb.Equal(v, g)) }
+		// the decoded value is the caller's: it does not live in the bytes it was decoded from. The input is placed at
+		// every alignment within a buffer, decoded, and the buffer then overwritten (as a database driver does with its
+		// row buffer)
+		if kind != "Nested" && n <= 10003 {
+			buf := make([]byte, len(data)+8)
+			for shift := 0; shift < 8; shift++ {
+				in := buf[shift : shift+len(data)]
+				copy(in, data)
+				var v orb.Geometry
+				var err error
+				switch {
+				case shift%2 == 0 && pkg == "wkb":
+					v, err = wkb.Unmarshal(in)
+				case shift%2 == 0:
+					v, _, err = ewkb.Unmarshal(in)
+				case pkg == "wkb":
+					s := wkb.Scanner(nil)
+					err = s.Scan(in)
+					v = s.Geometry
+				default:
+					s := ewkb.Scanner(nil)
+					err = s.Scan(in)
+					v = s.Geometry
+				}
+				for i := range in {
+					in[i] = 0xA5
+				}
+				same = append(same, eq(v, err))
+			}
+		}
 		if pkg == "wkb" {
 			same = append(same, eq(wkb.Unmarshal(data)))
 			same = append(same, eq(wkb.NewDecoder(bytes.NewReader(data)).Decode()))
@@ -176,6 +212,12 @@ func init() {
 		sizes := []int{9999, 10000, 10001, 10003, 20001}
 		if c.thorough() {
 			sizes = append(sizes, 19999, 20000, 30001, 65536, 65537)
+		}
+		for _, depth := range []int{17, 100, 101, 150, 1000} {
+			for _, le := range []bool{true, false} {
+				c01Big(c, "Nested", depth, "wkb", le, 0)
+				c01Big(c, "Nested", depth, "ewkb", le, 4326)
+			}
 		}
 		for _, kind := range []string{"LineString", "MultiPoint", "Polygon", "MultiLineString"} {
 			for _, n := range sizes {
